@@ -23,7 +23,7 @@ CLAIMS = {
     "C03": (
         "other",
         "constant-table extraction from MIR (variant->constant matches, string-match chains, closure capture resolution) and writer/reader table comparison",
-        "Round-trip equality of arbitrary values is value-level and not decided. Decided is the necessary clause that the writer's and the reader's tables agree: the BTOR2 keyword relation is the same bijection on both sides and covers all 70 variants (incl. the token translation tables), the constant validators accept exactly the scanners' character classes, AIGER symbol prefixes/targets/index limits agree in both files, the varint reader accepts every length the writer emits, header field order and optional tail, latch reset forms, DIMACS framing words. R2 is position-sensitive where the validator is a chars() loop: the validator's automaton (with its boolean flag states) must be included in the language the scanner consumes. R4b: the varint writer's continuation-bit protocol. R10: free text (symbol names, comments, constants) is handed out verbatim - identity conversions only on what advance_with_buf returns, and only the terminator byte is cut off. R5b: only a suffix of zero counts is left out of the AIGER header (zero tests decide from the back). R11: the whole-file AIGER writers work through the circuit's fields in the order in which the parsers fill them, and every header count is taken from the field of the same name. R12: fields of a struct or variant are written in the order in which they are parsed (token-call order vs. emitting-call order, per struct/variant). R13: binary and gates - writer and reader chain the two deltas the same way and step the running code by 2. R14: BTOR2 placeholders (constants, justice conditions, symbol) are pointed at the buffer the parser filled for them. R15 (shared with C10-R1): per-item buffers are cleared before they are filled. R16: text writers never emit two numbers (or a number and a constant starting with a digit, like the terminating 0) back to back on any path (forward dataflow over each writer). R17: the DIMACS parsers hand out the header as parse_header read it, whatever the configuration. R13b (shared with C06-R6): the binary reader refuses a delta only when it is larger than its reference code - delta == code is the constant 0 as a gate input, which the writer emits. R18 (shared with C13-R3/R4): numbers of every length the writers emit are scanned in full at any look-ahead offset. R19 (shared with C01-R1): the parsers read the writers' output through look-ahead requests, never through whatever happens to be buffered.",
+        "Round-trip equality of arbitrary values is value-level and not decided. Decided is the necessary clause that the writer's and the reader's tables agree: the BTOR2 keyword relation is the same bijection on both sides and covers all 70 variants (incl. the token translation tables), the constant validators accept exactly the scanners' character classes, AIGER symbol prefixes/targets/index limits agree in both files, the varint reader accepts every length the writer emits, header field order and optional tail, latch reset forms, DIMACS framing words. R2 is position-sensitive where the validator is a chars() loop: the validator's automaton (with its boolean flag states) must be included in the language the scanner consumes. R4b: the varint writer's continuation-bit protocol. R10: free text (symbol names, comments, constants) is handed out verbatim - identity conversions only on what advance_with_buf returns, and only the terminator byte is cut off. R5b: only a suffix of zero counts is left out of the AIGER header (zero tests decide from the back). R11: the whole-file AIGER writers work through the circuit's fields in the order in which the parsers fill them, and every header count is taken from the field of the same name. R12: fields of a struct or variant are written in the order in which they are parsed (token-call order vs. emitting-call order, per struct/variant). R13: binary and gates - writer and reader chain the two deltas the same way and step the running code by 2. R14: BTOR2 placeholders (constants, justice conditions, symbol) are pointed at the buffer the parser filled for them. R15 (shared with C10-R1): per-item buffers are cleared before they are filled. R16: text writers never emit two numbers (or a number and a constant starting with a digit, like the terminating 0) back to back on any path (forward dataflow over each writer). R17: the DIMACS parsers hand out the header as parse_header read it, whatever the configuration. R13b (shared with C06-R6): the binary reader refuses a delta only when it is larger than its reference code - delta == code is the constant 0 as a gate input, which the writer emits. R18 (shared with C13-R3/R4): numbers of every length the writers emit are scanned in full at any look-ahead offset. R19 (shared with C01-R1): the parsers read the writers' output through look-ahead requests, never through whatever happens to be buffered. R20 (shared with C06-R2): the DIMACS readers refuse only what a declared count or the literal type excludes - default limits (literal limit = the type's maximum, no clause limit, group limit usize::MAX whatever the literal type) accept everything the writers can emit.",
         "DESIGN.md §4 C03",
     ),
     "C04": (
@@ -41,7 +41,7 @@ CLAIMS = {
     "C06": (
         "other",
         "guard-dominance, def-use and control-dependence rules over MIR; affine path execution of the header bound chain; frozen oracle tables for defining positions and section counters",
-        "Numeric exactness of the decimal conversion is C13's subject. Decided: every limit the property names is installed from the right source and dominates every hand-out or narrowing: from_dimacs only behind (-limit..=limit).contains, from_code only on codes checked by lit/delta_code, lossy casts listed with their bound; DIMACS limits installed exactly when the header asks and consulted at clause attempt / clean end; AIGER max_lit = 2M+1 everywhere, defining positions, header remainder chain, section counters; inclusive operators; literal type maxima. R1 for loop variables: every assignment of the converted variable passes a range test before it can reach from_dimacs. R9 (shared with C13-R1b/R4): decimal scanning yields the exact value or None. R10: a justice literal is filed under property i only behind the test that property i holds fewer than its declared number, for the current i. R11: the declared variable count (the later literal limit) is parsed by token::var_count::<L> in all three DIMACS header parsers. R2 also: no other header count decides whether a limit is installed. R12: a number token contains at least one digit (consumed only after the scanner's end offset was found different from its start offset, decided by affine path execution through the && chains). R13: ignore_header is stored by its own setter only. R14 (= C05-R2 on flussab-aiger): sums of declared sizes cannot wrap.",
+        "Numeric exactness of the decimal conversion is C13's subject. Decided: every limit the property names is installed from the right source and dominates every hand-out or narrowing: from_dimacs only behind (-limit..=limit).contains, from_code only on codes checked by lit/delta_code, lossy casts listed with their bound; DIMACS limits installed exactly when the header asks and consulted at clause attempt / clean end; AIGER max_lit = 2M+1 everywhere, defining positions, header remainder chain, section counters; inclusive operators; literal type maxima. R1 for loop variables: every assignment of the converted variable passes a range test before it can reach from_dimacs. R9 (shared with C13-R1b/R4): decimal scanning yields the exact value or None. R10: a justice literal is filed under property i only behind the test that property i holds fewer than its declared number, for the current i. R11: the declared variable count (the later literal limit) is parsed by token::var_count::<L> in all three DIMACS header parsers. R2 also: no other header count decides whether a limit is installed. R12: a number token contains at least one digit (consumed only after the scanner's end offset was found different from its start offset, decided by affine path execution through the && chains). R13: ignore_header is stored by its own setter only. R14 (= C05-R2 on flussab-aiger): sums of declared sizes cannot wrap. R2 also: without a declared group count the GCNF group limit is usize::MAX, whatever the literal type.",
         "DESIGN.md §4 C06",
     ),
     "C07": (
@@ -53,13 +53,13 @@ CLAIMS = {
     "C08": (
         "other",
         "interprocedural typestate analysis (mark set/unset) plus per-function path rules with affine offset matching over MIR",
-        "Decides how the three pieces of location state are maintained on every path to an error: mark() only after set_mark() on the current line (all API roots, all call paths), line_start never ahead of the cursor when an error can be raised or a token returns, every matched-and-consumed line feed is counted, errors raised only at the cursor or the mark, column formula. It does not decide that the column lies on the token for errors raised at the cursor after partial look-ahead, nor message text. R3 also: a whole line skipped with next_newline is counted with the same offset, and the line start is only set after the cursor moved when it moved by exactly the line feed. R6: a token whose error is located by its caller (error type other than ParseError) commits the error with the cursor still on the token (typestate: no advance on a path returning Res(Err)). R7: once a token function consumed the token it marked, it raises errors at the mark, not at the cursor (typestate per token function). R8: rejected AIGER comment section - the advance behind the last line feed and the counted slice are evaluated to linear forms over n and p (rev().position = n-1-p, rposition = p) and must be p+1 and p. R9: the line bookkeeping itself by affine path execution - LineReader::new starts at line 1 at the reader's position, line_at_offset(k) adds one line starting at position + k, give_up_at hands its position on unchanged, and line / line_start are stored nowhere else (except the comment-section token decided by R8). R10: a matched alternative is committed - no error site is reachable both from the edge on which a consuming token matched and from the edge on which it fell through, within one round of the enclosing loops.",
+        "Decides how the three pieces of location state are maintained on every path to an error: mark() only after set_mark() on the current line (all API roots, all call paths), line_start never ahead of the cursor when an error can be raised or a token returns, every matched-and-consumed line feed is counted, errors raised only at the cursor or the mark, column formula. It does not decide that the column lies on the token for errors raised at the cursor after partial look-ahead, nor message text. R3 also: a whole line skipped with next_newline is counted with the same offset, and the line start is only set after the cursor moved when it moved by exactly the line feed. R6: a token whose error is located by its caller (error type other than ParseError) commits the error with the cursor still on the token (typestate: no advance on a path returning Res(Err)). R7: once a token function consumed the token it marked, it raises errors at the mark, not at the cursor (typestate per token function). R8: rejected AIGER comment section - the advance behind the last line feed and the counted slice are evaluated to linear forms over n and p (rev().position = n-1-p, rposition = p) and must be p+1 and p. R9: the line bookkeeping itself by affine path execution - LineReader::new starts at line 1 at the reader's position, line_at_offset(k) adds one line starting at position + k, give_up_at hands its position on unchanged, and line / line_start are stored nowhere else (except the comment-section token decided by R8). R10: a matched alternative is committed - no error site is reachable both from the edge on which a consuming token matched and from the edge on which it fell through, within one round of the enclosing loops. R11 (shared with C13-R3/R4): a number token ends where the scanners' documented behaviour says (+1 per digit, a lone minus sign is not passed over, fast and byte-wise paths agree), so a corrupted sign is reported where it stands.",
         "DESIGN.md §4 C08",
     ),
     "C09": (
         "other",
         "CFG/guard-dominance rules on the reader's refill code plus interprocedural typestate analysis (last look-ahead answer) over MIR",
-        "Decides: exactly one guarded Read::read call site whose only cycle is the Interrupted retry, refill reachable only when the buffer falls short, no bulk request in tokenizers; and on every path of every streaming API function the last look-ahead answer before a success return is the line terminator or end of input (no byte beyond the consumed text was asked for). The number of reads per item for a concrete source is not decided. R2's typestate follows the most recent look-ahead request (look-ahead events carry the tag of the answer they create; examining an older answer while a later request is outstanding does not count as the last look).",
+        "Decides: exactly one guarded Read::read call site whose only cycle is the Interrupted retry, refill reachable only when the buffer falls short, no bulk request in tokenizers; and on every path of every streaming API function the last look-ahead answer before a success return is the line terminator or end of input (no byte beyond the consumed text was asked for). The number of reads per item for a concrete source is not decided. R2's typestate follows the most recent look-ahead request (look-ahead events carry the tag of the answer they create; examining an older answer while a later request is outstanding does not count as the last look). Records that end with their last byte instead of a line end (binary and gates) have their own obligation: nothing is requested behind the cursor after the record was consumed.",
         "DESIGN.md §4 C09",
     ),
     "C10": (
@@ -77,13 +77,13 @@ CLAIMS = {
     "C12": (
         "other",
         "call-graph SCC check, def-use provenance of map keys vs. redefinition tests (sibling agreement), guard/dominance and expression-shape rules over MIR",
-        "Functional equivalence of the renumbered circuit (all circuits, all assignments, all option combinations) is value-level and NOT decided; neither are the const-fold case analysis, hash-consing or completeness of the cycle detection. Decided structural necessary conditions: no recursion (explicit stack), every kind of literal used as a key of the renumbering map passes a redefinition test yielding LitAlreadyDefined, every error variant has a producer on the right path and is propagated with `?`, inputs sorted (descending) before a gate is hashed or pushed, a fresh code before every pushed gate, inputs < latches < gates numbering order, LitMap/transfer polarity xor discipline. R5/R6 additionally decide that the literal handed back from the gate arm is the stored literal xor the polarity difference, and that every constant fold is an identity of AND on every decision path (conditions evaluated over the six representative codes). R7: source-circuit literals and renumbered literals (same type) are never compared or used in each other's place (flow-sensitive numbering tags). R8: the definition table is keyed by literals as written and every question to it covers both polarities (key-expression classes: plain / flipped / normalised). R9: literals are compared for identity only with literals of the same kind (requested literal vs. a definition's output as written). R3: the `?` on a fallible step must be reached on every way on from the call. R8 also: the definition table is read-only after lit_defs built it. R10: every root section (latch next-states, outputs, bad-state, constraints, justice, fairness) is walked with a transfer per literal on every path on which initialize returns Ok (dominance of the loop header over every Ok, transfer dominates every latch, loops left towards Ok by exhaustion only), so an undefined root yields LitNotDefined and never a later unwrap panic. R11: the constant cannot be redefined in either polarity (table seeded with literal 0 in front of every other insert, or tests excluding codes 0 and 1). R12: the conversion OrderedAig -> Aig spells out the positional names - input i = 2(i+1), latch i = 2(i+1+I), gate i = 2(i+1+I+L) - decided by affine execution of the conversion and its closures; every other field from the field of the same name. R13: the option setters of RenumberConfig store their parameter into the field of their own name.",
+        "Functional equivalence of the renumbered circuit (all circuits, all assignments, all option combinations) is value-level and NOT decided; neither are the const-fold case analysis, hash-consing or completeness of the cycle detection. Decided structural necessary conditions: no recursion (explicit stack), every kind of literal used as a key of the renumbering map passes a redefinition test yielding LitAlreadyDefined, every error variant has a producer on the right path and is propagated with `?`, inputs sorted (descending) before a gate is hashed or pushed, a fresh code before every pushed gate, inputs < latches < gates numbering order, LitMap/transfer polarity xor discipline. R5/R6 additionally decide that the literal handed back from the gate arm is the stored literal xor the polarity difference, and that every constant fold is an identity of AND on every decision path (conditions evaluated over the six representative codes). R7: source-circuit literals and renumbered literals (same type) are never compared or used in each other's place (flow-sensitive numbering tags). R8: the definition table is keyed by literals as written and every question to it covers both polarities (key-expression classes: plain / flipped / normalised). R9: literals are compared for identity only with literals of the same kind (requested literal vs. a definition's output as written). R3: the `?` on a fallible step must be reached on every way on from the call. R8 also: the definition table is read-only after lit_defs built it. R10: every root section (latch next-states, outputs, bad-state, constraints, justice, fairness) is walked with a transfer per literal on every path on which initialize returns Ok (dominance of the loop header over every Ok, transfer dominates every latch, loops left towards Ok by exhaustion only), so an undefined root yields LitNotDefined and never a later unwrap panic. R11: the constant cannot be redefined in either polarity (table seeded with literal 0 in front of every other insert, or tests excluding codes 0 and 1). R12: the conversion OrderedAig -> Aig spells out the positional names - input i = 2(i+1), latch i = 2(i+1+I), gate i = 2(i+1+I+L) - decided by affine execution of the conversion and its closures; every other field from the field of the same name. R13: the option setters of RenumberConfig store their parameter into the field of their own name. R14 (shared with C05-R5): no table of the renumbering code is sized by a declared number (max_var_index, header counts); the allocation rule covers every pre-sizable collection.",
         "DESIGN.md §4 C12",
     ),
     "C13": (
         "other",
         "def-use discipline rules over MIR, sibling comparison of loop bodies, exhaustive abstract interpretation of the scanning behaviour over (offset label, byte class)",
-        "The numeric value of the SWAR kernel and of the accumulation loops is value-level and not decided. Decided: every overflowing_* flag reaches the one flag gating the returned Option and no other arithmetic touches the value; the five accumulation steps agree (x10, +/- (byte - '0')); the simple scanners' behaviour (digit class, +1 per digit, a lone minus is not passed over) equals the specification exactly for entry offsets 0 and 1; the fast/cold plumbing (cold tail calls, all-matched constants 8/7, continuation at offset+8, checked conversions, sign counted only if a digit followed). R1b: None is returned exactly on the paths where an overflowing_* step reported overflow or None came in, decided as a typestate independent of how the flag is stored. R5: the SWAR kernel's digit test is interpreted lane by lane (tables over all 256 byte values per lane, additions proved carry-free between lanes): a lane is zero exactly for '0'..='9'; only the multiply-and-shift reduction is assumed. R4 also: a fast variant returns without the byte-wise continuation only behind the test that fewer than 8 (7 after a minus) digit bytes of the word matched - what is or is not buffered behind the word never ends a number. R6 (= C09-R1): a None answer of the look-ahead, at which a digit run ends, is the end of the source (Interrupted retried in place, refills give up only at the end or on an error).",
+        "The numeric value of the SWAR kernel and of the accumulation loops is value-level and not decided. Decided: every overflowing_* flag reaches the one flag gating the returned Option and no other arithmetic touches the value; the five accumulation steps agree (x10, +/- (byte - '0')); the simple scanners' behaviour (digit class, +1 per digit, a lone minus is not passed over) equals the specification exactly for entry offsets 0 and 1; the fast/cold plumbing (cold tail calls, all-matched constants 8/7, continuation at offset+8, checked conversions, sign counted only if a digit followed). R1b: None is returned exactly on the paths where an overflowing_* step reported overflow or None came in, decided as a typestate independent of how the flag is stored. R5: the SWAR kernel's digit test is interpreted lane by lane (tables over all 256 byte values per lane, additions proved carry-free between lanes): a lane is zero exactly for '0'..='9'; only the multiply-and-shift reduction is assumed. R4 also: a fast variant returns without the byte-wise continuation only behind the test that fewer than 8 (7 after a minus) digit bytes of the word matched - what is or is not buffered behind the word never ends a number. R6 (= C09-R1): a None answer of the look-ahead, at which a digit run ends, is the end of the source (Interrupted retried in place, refills give up only at the end or on an error). R7 (shared with C02-R3/R4/R7): the bytes the scanners read are the bytes of the source (appended reads, shrinking keeps the window, observers index at the cursor).",
         "DESIGN.md §4 C13",
     ),
     "C14": (
